@@ -591,6 +591,10 @@ cdef class HttpParser:
         if self._msg_in_flight > 0:
             self._msg_in_flight -= 1
 
+    def has_unparsed_data(self):
+        """A message has begun and is not complete yet."""
+        return self._started
+
     def feed_eof(self):
         cdef bytes desc
 
